@@ -128,8 +128,8 @@ impl<'a> CostEstimator<'a> {
                 let output = self.estimate_output_cardinality(plan);
 
                 left_cost
-                    + left_cardinality * CostConstants::COST_PER_PROBE
-                    + output * CostConstants::COST_PER_ROW_JOIN
+                    .saturating_add(left_cardinality.saturating_mul(CostConstants::COST_PER_PROBE))
+                    .saturating_add(output.saturating_mul(CostConstants::COST_PER_ROW_JOIN))
             }
             PhysicalOperator::HashJoin { left, right } => {
                 let left_cost = self.estimate_cost(left);
@@ -139,9 +139,13 @@ impl<'a> CostEstimator<'a> {
                 let output = self.estimate_output_cardinality(plan);
 
                 left_cost
-                    + right_cost
-                    + (left_cardinality + right_cardinality) * CostConstants::COST_PER_ROW_JOIN
-                    + output * CostConstants::COST_PER_ROW_JOIN
+                    .saturating_add(right_cost)
+                    .saturating_add(
+                        left_cardinality
+                            .saturating_add(right_cardinality)
+                            .saturating_mul(CostConstants::COST_PER_ROW_JOIN),
+                    )
+                    .saturating_add(output.saturating_mul(CostConstants::COST_PER_ROW_JOIN))
             }
             PhysicalOperator::NestedLoopJoin { left, right } => {
                 let left_cost = self.estimate_cost(left);
